@@ -63,8 +63,48 @@ def make_scenarios(h, prop, tier, verif_seed, index):
     return out
 
 
+class ScenarioTimeout(BaseException):
+    """One scenario (milliseconds of work) has not returned within SCENARIO_WALL seconds."""
+
+
+SCENARIO_WALL = int(os.environ.get("DSIM_SCENARIO_WALL") or 30)
+
+
+_ALARM_FIRED = [False]
+
+
+def _on_alarm(signum, frame):
+    _ALARM_FIRED[0] = True
+    raise ScenarioTimeout()
+
+
 def execute(h, sc):
-    res = h.execute(sc)
+    # Every loop of the simulated world has its own cap (stream calls, reads after end of input,
+    # scheduler steps, listener calls).  A loop in the code under test that touches none of them
+    # would keep the worker busy until the batch watchdog and end the batch as a harness error; a
+    # scenario that is this far beyond its budget is reported as a violation of its own instead.
+    # (A wall-clock verdict of last resort: the replay hangs, and is cut, in the same way.)
+    import signal
+    from .harness import Result
+    use_alarm = hasattr(signal, "setitimer") and __import__("threading").current_thread() is __import__("threading").main_thread()
+    if use_alarm:
+        old = signal.signal(signal.SIGALRM, _on_alarm)
+        signal.setitimer(signal.ITIMER_REAL, SCENARIO_WALL)
+    _ALARM_FIRED[0] = False
+    res = None
+    try:
+        res = h.execute(sc)
+    except ScenarioTimeout:
+        pass
+    finally:
+        if use_alarm:
+            signal.setitimer(signal.ITIMER_REAL, 0)
+            signal.signal(signal.SIGALRM, old)
+    if _ALARM_FIRED[0] or res is None:
+        # whatever the harness made of the interruption: one verdict, one signature
+        res = Result()
+        res.violate("hang", "execute", "the scenario did not finish within %d s of wall time (typical: milliseconds)" % SCENARIO_WALL)
+        res.events = ["hang"]
     body = {k: v for k, v in sc.items() if k != "_run"}
     canon = json.dumps(body, sort_keys=True, default=str)
     res.digest = digest((canon, res.events, [signature(v) for v in res.violations]))
@@ -126,7 +166,7 @@ def _work(args):
                     if res.observed:
                         smp["_observed"] = res.observed
                     agg["samples"].append(smp)
-                if audit_mod and i % audit_mod == 0:
+                if audit_mod and i % audit_mod == 0 and not any(v["oracle"] == "hang" for v in res.violations):
                     agg["audit"][(i, sc["_run"]["variant"])] = res.digest
                 for v in res.violations:
                     agg["n_violations"] += 1
@@ -363,9 +403,9 @@ def run_check(prop, tier, verif_seed, runs=None, workers=None):
             res0 = execute(h, sc)
             if not any(signature(x) == sig for x in res0.violations):
                 continue
-            sh = Shrinker(h, sig, budget=budget)
-            cand = sh.run(sc)
-            res = execute(h, cand)
+            sh = Shrinker(h, sig, budget=budget if sig[0] != "hang" else 0)  # every candidate of a hang costs the full wall
+            cand = sh.run(sc) if sig[0] != "hang" else sc
+            res = execute(h, cand) if sig[0] != "hang" else res0
             cv = [x for x in res.violations if signature(x) == sig]
             # ... and its replay file must reproduce in a fresh interpreter; the minimised scenario
             # first, the scenario as generated as a fall-back (shrinking may lean on state that this
